@@ -55,9 +55,10 @@ type sched struct {
 	eofWithData bool
 	dst         int  // 0 = rs
 	copy        bool // drained with io.Copy (which uses the decoder's WriteTo when it has one) instead of a Read loop
+	sniff       int  // with copy: one Read of this many bytes first (a consumer that looks at the start, then copies the rest)
 }
 
-var scheds = []sched{{"whole/3", 0, false, 3, false}, {"1byte/rs", 1, false, 0, false}, {"whole/1", 0, true, 1, false}, {"7byte/64K", 7, true, 65536, false}, {"whole/rs+33", 0, false, -33, false}, {"whole/io.Copy", 0, false, 0, true}, {"5byte/io.Copy", 5, true, 0, true}}
+var scheds = []sched{{"whole/3", 0, false, 3, false, 0}, {"1byte/rs", 1, false, 0, false, 0}, {"whole/1", 0, true, 1, false, 0}, {"7byte/64K", 7, true, 65536, false, 0}, {"whole/rs+33", 0, false, -33, false, 0}, {"whole/io.Copy", 0, false, 0, true, 0}, {"5byte/io.Copy", 5, true, 0, true, 0}, {"whole/sniff5+io.Copy", 0, false, 0, true, 5}, {"3byte/sniff1+io.Copy", 3, true, 0, true, 1}}
 
 type obs struct {
 	out           []byte
@@ -86,6 +87,19 @@ func drive(r *mon.Run, id string, d draft, stream []byte, digest string, limit u
 		}
 		if sc.copy {
 			var sink bytes.Buffer
+			if sc.sniff > 0 {
+				first := make([]byte, sc.sniff)
+				k, e := dec.Read(first)
+				sink.Write(first[:k])
+				if e != nil {
+					o.out = sink.Bytes()
+					o.cleanEOF = e == io.EOF
+					if e != io.EOF {
+						o.err = e
+					}
+					return
+				}
+			}
 			_, e := io.Copy(&sink, dec)
 			o.out = sink.Bytes()
 			if e == nil {
